@@ -51,6 +51,16 @@ def realise(k, op, variant, reg):
         opts.append(('register', {'type': 'register', 'register': reg, 'bytecode': code}, reg))
         opts.append(('numeric_enumeration', {'type': 'numeric_enumeration', 'bytecode': {'size': cw, 'position': pos, 'value_dict': {7: cv, 8: (cv + 1) % (1 << cw)}}}, '3 + 4'))
         opts.append(('numeric_bytecode', {'type': 'numeric_bytecode', 'bytecode': {'size': cw, 'position': pos, 'min': 0, 'max': (1 << cw) - 1}}, num_text(cv)))
+        if cw >= 2:
+            # composite code: register code bits followed by the bits of a numeric index code, written as a NEGATIVE number when its
+            # top bit is set (two's complement in its own width)
+            half = cw // 2
+            low = cv & ((1 << half) - 1)
+            iv = low - (1 << half) if low >> (half - 1) else low
+            idx = {f'nx{k}': {'type': 'numeric_bytecode', 'bytecode': {'size': half, 'min': -(1 << (half - 1)), 'max': (1 << half) - 1}}}
+            opts.append(('indexed_register(register code + signed numeric index code)',
+                         {'type': 'indexed_register', 'register': reg, 'bytecode': {'value': cv >> half, 'size': cw - half, 'position': pos}, 'index_operands': idx},
+                         f'{reg} + {iv}' if iv >= 0 else f'{reg} + NEGV{-iv}'))
     elif c == 'none' and a == 'arg':
         opts.append(('numeric', {'type': 'numeric', 'argument': _arg_cfg(aw, al, aen)}, num_text(av)))
         opts.append(('enumeration', {'type': 'enumeration', 'argument': dict(_arg_cfg(aw, al, aen), value_dict={'kx': av, 'ky': 1})}, 'kx'))
